@@ -18,6 +18,7 @@ between these layers and the result, is covered by the metamorphic differential 
 -/
 import SqlLineage.Model.Segments
 import SqlLineage.Model.Stmt
+import SqlLineage.Model.Assemble
 import SqlLineage.Spec.Tables
 import SqlLineage.Gen.Dispatch
 import SqlLineage.Proofs.Ident
@@ -484,6 +485,174 @@ example : Ident.Clean "tab_1".toList ∧ Ident.IsLower "tab_1".toList ∧
 
 /-- the hypothesis `IsLower` is needed: quoting a name that is not lower-case denotes a different entity -/
 theorem quote_mixed_case_differs : Ident.escape "\"Ab\"".toList ≠ Ident.escape "Ab".toList := by decide
+
+/-! ## §4 the rendering's keyword case (`Walk.Env.ro`)
+
+The model analyses the typed AST; the only place where the *text* of the statement enters is `env.ro` (keyword case of the
+canonical rendering), through exactly two functions of `Model/Walk.lean`: `subqRaw` (the raw text that identifies a
+subquery, `SqlFluffSubQuery.of(segment.raw)`) and `colSpecOf` (the display name of an un-aliased expression column,
+`Column(column.raw)`).  Full statement (NOT proved — see `render_case_irrelevant_partial` for what is missing):
+
+    theorem render_case_irrelevant (env) (o) (silent) (s) :
+      (analyze { env with ro := o } silent s).map tablesOf = (analyze env silent s).map tablesOf
+      where tablesOf g := (maskNames (Assemble.stmtRead g), maskNames (Assemble.stmtWrite g))
+
+Proved here: the specification of the tables a statement reads / writes does not depend on `ro` (all statements); the walk
+itself does not depend on `ro` for every statement without a query part; and wherever the walk's table lineage is exact
+(C01's `reads_exact`, in progress) it is independent of `ro`. -/
+
+open SqlLineage.Ast SqlLineage.Walk SqlLineage.Spec
+
+/-- what the property exempts: the identity of a subquery (its raw text) and the display name of an expression column are
+    replaced by fixed marks; tables, paths and plain strings are kept -/
+def maskNode : Node → Node
+  | .ds (.subq _) => .ds (.subq "?")
+  | .col p (some (.subq _)) => .col p (some (.subq "?"))
+  | n => n
+
+def maskNames (l : List Node) : List Node := l.map maskNode
+
+/-- dataset nodes (what `StatementLineageHolder.read` / `.write` return) are never masked -/
+theorem maskNames_datasets (l : List Node) (h : ∀ n ∈ l, n.isDataset = true) : maskNames l = l := by
+  unfold maskNames
+  conv => rhs; rw [← List.map_id l]
+  apply List.map_congr_left
+  intro n hn
+  have := h n hn
+  cases n with
+  | ds d => cases d <;> simp_all [maskNode, Node.isDataset, DS.isDataset]
+  | col _ _ => simp [Node.isDataset] at this
+  | str _ => simp [Node.isDataset] at this
+
+/-- so the statement-level read / write sets need no masking at all: they are lists of tables and paths -/
+theorem stmtRead_unmasked (g : LGraph) : maskNames (Assemble.stmtRead g) = Assemble.stmtRead g ∧
+    maskNames (Assemble.stmtWrite g) = Assemble.stmtWrite g := by
+  constructor <;> apply maskNames_datasets <;> intro n hn
+  · exact (List.mem_filter.mp hn).2
+  · exact (List.mem_filter.mp hn).2
+
+private theorem tableName_ro (env : Env) (o : Render.Opts) (parts : List String) :
+    tableName { env with ro := o } parts = tableName env parts := rfl
+
+section
+variable (env : Env) (o : Render.Opts)
+
+mutual
+private theorem rdExpr_ro : ∀ (e : Expr) (cte : List String), rdExpr { env with ro := o } cte e = rdExpr env cte e
+  | .col _ _, _ | .star _, _ | .lit _, _ => by simp only [rdExpr]
+  | .func _ _ args over, cte => by
+    cases over with
+    | none => simp only [rdExpr, rdExprs_ro args]
+    | some ov => cases ov with | mk p q => simp only [rdExpr, rdExprs_ro args, rdExprs_ro p, rdExprs_ro q]
+  | .cast e _, cte => by simp only [rdExpr, rdExpr_ro e]
+  | .case ws els, cte => by
+    cases els with
+    | none => simp only [rdExpr, rdWhens_ro ws]
+    | some e => simp only [rdExpr, rdWhens_ro ws, rdExpr_ro e]
+  | .bin _ a b, cte => by simp only [rdExpr, rdExpr_ro a, rdExpr_ro b]
+  | .paren e, cte => by simp only [rdExpr, rdExpr_ro e]
+  | .subq q, cte => by simp only [rdExpr, rdQuery_ro q]
+  | .inSubq e _ q, cte => by simp only [rdExpr, rdExpr_ro e, rdQuery_ro q]
+  | .exist _ q, cte => by simp only [rdExpr, rdQuery_ro q]
+private theorem rdExprs_ro : ∀ (l : List Expr) (cte : List String), rdExprs { env with ro := o } cte l = rdExprs env cte l
+  | [], _ => by simp only [rdExprs]
+  | e :: r, cte => by simp only [rdExprs, rdExpr_ro e, rdExprs_ro r]
+private theorem rdWhens_ro : ∀ (l : List When) (cte : List String), rdWhens { env with ro := o } cte l = rdWhens env cte l
+  | [], _ => by simp only [rdWhens]
+  | .mk c r :: rest, cte => by simp only [rdWhens, rdExpr_ro c, rdExpr_ro r, rdWhens_ro rest]
+private theorem rdItems_ro : ∀ (l : List Item) (cte : List String), rdItems { env with ro := o } cte l = rdItems env cte l
+  | [], _ => by simp only [rdItems]
+  | .mk e _ _ :: r, cte => by simp only [rdItems, rdExpr_ro e, rdItems_ro r]
+private theorem rdQuery_ro : ∀ (q : Query) (cte : List String), rdQuery { env with ro := o } cte q = rdQuery env cte q
+  | .select _ its frm wh grp hav, cte => by
+    cases wh <;> cases hav <;>
+      simp only [rdQuery, rdOpt, rdFromExprs_ro frm, rdItems_ro its, rdExprs_ro grp, rdExpr_ro]
+  | .setop first rest, cte => by simp only [rdQuery, rdBranch_ro first, rdOpBranches_ro rest]
+  | .withq cs body, cte => by simp only [rdQuery, rdCtes_ro cs, rdQuery_ro body]
+private theorem rdBranch_ro : ∀ (b : Branch) (cte : List String), rdBranch { env with ro := o } cte b = rdBranch env cte b
+  | .mk q _, cte => by simp only [rdBranch, rdQuery_ro q]
+private theorem rdOpBranches_ro : ∀ (l : List OpBranch) (cte : List String),
+    rdOpBranches { env with ro := o } cte l = rdOpBranches env cte l
+  | [], _ => by simp only [rdOpBranches]
+  | .mk _ b :: r, cte => by simp only [rdOpBranches, rdBranch_ro b, rdOpBranches_ro r]
+private theorem rdCtes_ro : ∀ (l : List Cte) (cte : List String), rdCtes { env with ro := o } cte l = rdCtes env cte l
+  | [], _ => by simp only [rdCtes]
+  | .mk _ q :: r, cte => by simp only [rdCtes, rdQuery_ro q, rdCtes_ro r]
+private theorem rdElem_ro : ∀ (e : FromElem) (cte : List String), rdElem { env with ro := o } cte e = rdElem env cte e
+  | .table parts _ _, cte => by simp only [rdElem, tableName_ro]
+  | .derived q _ _, cte => by simp only [rdElem, rdQuery_ro q]
+private theorem rdJoins_ro : ∀ (l : List Join) (cte : List String), rdJoins { env with ro := o } cte l = rdJoins env cte l
+  | [], _ => by simp only [rdJoins]
+  | .mk _ e on _ :: r, cte => by
+    cases on <;> simp only [rdJoins, rdOpt, rdElem_ro e, rdJoins_ro r, rdExpr_ro]
+private theorem rdFromExpr_ro : ∀ (f : FromExpr) (cte : List String),
+    rdFromExpr { env with ro := o } cte f = rdFromExpr env cte f
+  | .mk base js, cte => by simp only [rdFromExpr, rdElem_ro base, rdJoins_ro js]
+private theorem rdFromExprs_ro : ∀ (l : List FromExpr) (cte : List String),
+    rdFromExprs { env with ro := o } cte l = rdFromExprs env cte l
+  | [], _ => by simp only [rdFromExprs]
+  | f :: r, cte => by simp only [rdFromExprs, rdFromExpr_ro f, rdFromExprs_ro r]
+end
+end
+
+/-- **the tables a statement reads and writes according to the specification do not depend on the rendering** (every
+    statement, every nesting depth) -/
+theorem spec_ro_irrelevant (env : Env) (o : Render.Opts) (s : Stmt) :
+    Spec.reads { env with ro := o } s = Spec.reads env s ∧ Spec.writes { env with ro := o } s = Spec.writes env s := by
+  constructor
+  · cases s <;> simp only [Spec.reads, rdQuery_ro, tableName_ro]
+  · cases s <;> simp only [Spec.writes, tableName_ro]
+
+/-- statements without a query part (INSERT … VALUES, CREATE TABLE [LIKE], DROP, ALTER … RENAME, RENAME TABLE, no-op and
+    unsupported statements): the walk never renders anything, its whole holder graph is independent of `ro`.
+    `_partial`: for statements WITH a query part the holder graphs under two renderings differ (subquery identities and
+    expression display names follow the text) and are related by a renaming of those nodes that need not be injective (a set
+    operator spelled `union` in one subquery and `UNION` in an otherwise equal one makes two nodes under `upper := false`
+    and one under `upper := true`); proving that `stmtRead` / `stmtWrite` survive that quotient needs a simulation
+    argument through `endOfQueryCleanup` / `expandWildcard` that is not done.  The metamorphic differential covers it. -/
+theorem render_case_irrelevant_partial (env : Env) (o : Render.Opts) (silent : Bool) (s : Stmt)
+    (h : Spec.stmtQuery? s = none) : analyze { env with ro := o } silent s = analyze env silent s := by
+  cases s <;> first | rfl | (simp [Spec.stmtQuery?] at h)
+
+example : Spec.stmtQuery? (.createTableLike ["s", "t"] ["u"]) = none ∧ Spec.stmtQuery? (.drop false true ["t"]) = none ∧
+    Spec.stmtQuery? (.insertValues ["t"] (some ["a"]) [[.lit "1"]]) = none := ⟨rfl, rfl, rfl⟩
+
+/-- printed names of the tables in a list of nodes -/
+def tableNames (l : List Node) : List String :=
+  l.filterMap (fun n => match n with | .ds (.table s t) => some (s ++ "." ++ t) | _ => none)
+
+/-- the walk's statement-level table lineage is exact for `s` under `env` (what C01's `reads_exact` establishes on its
+    fragment): same members as the specification -/
+def TablesExact (env : Env) (silent : Bool) (s : Stmt) : Prop :=
+  ∀ g, analyze env silent s = .ok g →
+    (∀ x, x ∈ tableNames (Assemble.stmtRead g) ↔ x ∈ Spec.reads env s) ∧
+    (∀ x, x ∈ tableNames (Assemble.stmtWrite g) ↔ x ∈ Spec.writes env s)
+
+/-- wherever the table lineage is exact under both renderings, it is the same under both: keyword case cannot move a table -/
+theorem render_case_irrelevant_of_exact (env : Env) (o : Render.Opts) (silent : Bool) (s : Stmt)
+    (h₁ : TablesExact env silent s) (h₂ : TablesExact { env with ro := o } silent s)
+    (g₁ g₂ : LGraph) (e₁ : analyze env silent s = .ok g₁) (e₂ : analyze { env with ro := o } silent s = .ok g₂) :
+    (∀ x, x ∈ tableNames (Assemble.stmtRead g₂) ↔ x ∈ tableNames (Assemble.stmtRead g₁)) ∧
+    (∀ x, x ∈ tableNames (Assemble.stmtWrite g₂) ↔ x ∈ tableNames (Assemble.stmtWrite g₁)) := by
+  obtain ⟨r₁, w₁⟩ := h₁ g₁ e₁
+  obtain ⟨r₂, w₂⟩ := h₂ g₂ e₂
+  obtain ⟨sr, sw⟩ := spec_ro_irrelevant env o s
+  constructor
+  · intro x; rw [r₂ x, r₁ x, sr]
+  · intro x; rw [w₂ x, w₁ x, sw]
+
+/-- `TablesExact` is satisfiable: for a statement without a query part it is a computation (here: DROP reads and writes nothing) -/
+example (env : Env) : TablesExact env false (.drop false false ["t"]) := by
+  intro g hg
+  have : g = exDrop env ["t"] := by
+    simp [analyze, dispatch, stmtType, Gen.Dispatch.supported, Gen.Dispatch.supportedSelectExtractor,
+      Gen.Dispatch.supportedCreateInsertExtractor, Gen.Dispatch.supportedCteExtractor, Gen.Dispatch.supportedUpdateExtractor,
+      Gen.Dispatch.supportedMergeExtractor, Gen.Dispatch.supportedCopyExtractor, Gen.Dispatch.supportedNoopExtractor,
+      Gen.Dispatch.supportedDropExtractor] at hg
+    exact hg.symm
+  subst this
+  simp [tableNames, Assemble.stmtRead, Assemble.stmtWrite, Assemble.tagged, exDrop, Holder.addDrop, Graph.setTag, Graph.addNode,
+    Graph.hasNode, Graph.tag, Graph.empty, Spec.reads, Spec.writes]
 
 /-! ## §5 trailing semicolons (`helpers.split`) -/
 
